@@ -72,7 +72,7 @@ enum RetryStrategyField {
 impl RecognizerReadable for RetryStrategy {
     type Rec = RetryStrategyRecognizer;
     type AttrRec = SimpleAttrBody<RetryStrategyRecognizer>;
-    type BodyRec = SimpleRecBody<RetryStrategyRecognizer>;
+    type BodyRec = RetryStrategyRecognizer;
 
     fn make_recognizer() -> Self::Rec {
         RetryStrategyRecognizer {
@@ -89,10 +89,10 @@ impl RecognizerReadable for RetryStrategy {
     }
 
     fn make_body_recognizer() -> Self::BodyRec {
-        SimpleRecBody::new(RetryStrategyRecognizer {
-            stage: RetryStrategyStage::Init,
-            fields: None,
-        })
+        // A retry strategy is a record with a tag attribute; when the body of another record
+        // is delegated to it, it reads that record's remaining attributes and body itself (as
+        // the derived record types do).
+        Self::make_recognizer()
     }
 }
 
@@ -488,7 +488,7 @@ enum DurationField {
 impl RecognizerReadable for Duration {
     type Rec = DurationRecognizer;
     type AttrRec = SimpleAttrBody<DurationRecognizer>;
-    type BodyRec = SimpleRecBody<DurationRecognizer>;
+    type BodyRec = DurationRecognizer;
 
     fn make_recognizer() -> Self::Rec {
         DurationRecognizer {
@@ -507,11 +507,8 @@ impl RecognizerReadable for Duration {
     }
 
     fn make_body_recognizer() -> Self::BodyRec {
-        SimpleRecBody::new(DurationRecognizer {
-            stage: DurationStage::Init,
-            secs: None,
-            nanos: None,
-        })
+        // As for any record with a tag attribute, the recognizer reads the delegated body itself.
+        Self::make_recognizer()
     }
 }
 
